@@ -508,6 +508,12 @@ def run(ctx):
         ("cycle: /data/a -> /data/b/c; /data/d/e.", "cycle: ${a} -> ${c}; ${e}."),
         ("at end /data/q9", "at end ${q9}"),
         ("[/data/q1]: x", "[${q1}]: x"),
+        # multi-line reports: only a line that repeats the line directly before it is dropped - two reports that share
+        # their explanatory lines both keep them
+        ("Error A in /data/q1\ncaused by: bad cast\nError B in /data/q2\ncaused by: bad cast", "Error A in ${q1}\ncaused by: bad cast\nError B in ${q2}\ncaused by: bad cast"),
+        ("same\nsame\nother\nsame", "same\nother\nsame"),
+        ("one\ntwo\nthree", "one\ntwo\nthree"),
+        ("Problem at /data/g1/q\nProblem at /data/g2/q\ndetail\nProblem at /data/g1/q", "Problem at ${q}\ndetail\nProblem at ${q}"),
     ]
     for src, want in cases:
         it = ctx.interp("C18.R6")
